@@ -47,6 +47,8 @@ class blockiterator(object):
             else:
                 break
         if padding:
+            # lastblock counts bitlen from the first bit ever fed, this call's bitlen starts at 'start':
+            if kargs.get('bitlen',None) is not None: kargs['bitlen'] = start+bitlen
             nPi = self.lastblock(Pi,**kargs)
             b,lastb= nPi[:self.blocklen],nPi[self.blocklen:]
             yield b
